@@ -223,10 +223,14 @@ pub fn interventions(ctx: &Ctx, prop: &'static str, sealed: bool, acts: &[Act]) 
             }
         }
     }
+    // every path twice: plain, and with a TRACE tracing subscriber as the thread's dispatcher (log
+    // statements evaluate their arguments only then)
+    let sink = super::model::sink_dispatch(tracing::Level::TRACE);
     ijobs
         .par_iter()
         .fold(Acc::default, |mut acc, (tcp, c, iv, pat)| {
             run_path(prop, sealed, *tcp, *c, &vec![*pat; 12], Some(*iv), &mut acc);
+            tracing::dispatcher::with_default(&sink, || run_path(prop, sealed, *tcp, *c, &vec![*pat; 12], Some(*iv), &mut acc));
             acc
         })
         .reduce(Acc::default, |a, b| a.merge(b))
@@ -253,9 +257,15 @@ pub fn pair_interventions(ctx: &Ctx, prop: &'static str, sealed: bool, first: &[
             }
         }
     }
+    let sink = super::model::sink_dispatch(tracing::Level::DEBUG);
     jobs.par_iter()
-        .fold(Acc::default, |mut acc, (tcp, c, i1, i2)| {
-            run_path2(prop, sealed, *tcp, *c, &[Pat::Exact; 12], Some(*i1), Some(*i2), &mut acc);
+        .enumerate()
+        .fold(Acc::default, |mut acc, (n, (tcp, c, i1, i2))| {
+            if n % 2 == 0 {
+                run_path2(prop, sealed, *tcp, *c, &[Pat::Exact; 12], Some(*i1), Some(*i2), &mut acc);
+            } else {
+                tracing::dispatcher::with_default(&sink, || run_path2(prop, sealed, *tcp, *c, &[Pat::Exact; 12], Some(*i1), Some(*i2), &mut acc));
+            }
             acc
         })
         .reduce(Acc::default, |a, b| a.merge(b))
